@@ -121,7 +121,7 @@ def _run_task(args):
         hooks = [getattr(m, "REPLAY_EXTRACT", None) for m in loaded]
 
         def do_one(ob):
-            solve.discharge(ob, opts.get("z3_timeout_ms", 10000), opts.get("cvc5_timeout_s", 15), opts.get("cross_check", False))
+            solve.discharge(ob, opts.get("z3_timeout_ms", 10000), opts.get("cvc5_timeout_s", 15), opts.get("cross_check", False), expect_sat=task.contract.probe)
             rec = {"name": ob.name, "kind": ob.kind, "status": ob.status, "backend": ob.backend,
                    "time": round(ob.time, 4), "tags": tags_of(ob.name), "line": ob.line,
                    "trace": [list(x) for x in ob.trace], "nhyps": len(ob.hyps)}
@@ -146,6 +146,9 @@ def _run_task(args):
             return rec
 
         obs = task.obligations
+        if task.contract.probe:
+            obs = [ob for ob in obs if any(x in ob.name for x in task.contract.probe_only)]
+            out["probe"] = True
         K = min(int(opts.get("sub_jobs", 8)), max(1, len(obs) // 60))
         if K <= 1:
             out["obligations"] = [do_one(ob) for ob in obs]
